@@ -265,6 +265,7 @@ class ShardState:
 def run_shard(module, sub_index: int, tier: str, seed: int, shard: int, nshards: int, cap_at: float) -> dict:
     sub: Sub = module.SUBCHECKS[sub_index]
     state = ShardState(module, sub, tier, cap_at)
+    t_start = time.time()
     try:
         if sub.fixed is not None and shard == 0:
             for desc in sub.fixed(tier):
@@ -288,33 +289,49 @@ def run_shard(module, sub_index: int, tier: str, seed: int, shard: int, nshards:
         state.harness_error = ''.join(traceback.format_exception(type(exc), exc, exc.__traceback__))
     except Exception as exc:
         state.harness_error = ''.join(traceback.format_exception(type(exc), exc, exc.__traceback__))
-    return state.result()
+    res = state.result()
+    res['cpu_wall_s'] = time.time() - t_start
+    return res
 
 
 def _run_hypothesis(state: ShardState, sub: Sub, tier: str, hseed: int, n: int) -> None:
+    """Run ``n`` generated cases.  Done in chunks (each its own seeded Hypothesis run) so that the wall-clock
+    safety cap ends generation promptly instead of drawing and skipping every remaining example."""
     import hypothesis
     from hypothesis import HealthCheck, Phase, given, settings
 
     strat = sub.strategy(tier)
+    chunk = 1000
+    done = 0
+    part = 0
+    while done < n:
+        if time.time() > state.cap_at:
+            state.skipped_budget += n - done
+            return
+        this = min(chunk, n - done)
 
-    @hypothesis.seed(hseed)
-    @settings(
-        max_examples=n, database=None, deadline=None, derandomize=False, report_multiple_bugs=False,
-        suppress_health_check=list(HealthCheck), phases=[Phase.generate, Phase.shrink],
-        verbosity=hypothesis.Verbosity.quiet, print_blob=False,
-    )
-    @given(strat)
-    def test(desc):
-        state.run_case(desc)
+        @hypothesis.seed(hseed + part * 7919)
+        @settings(
+            max_examples=this, database=None, deadline=None, derandomize=False, report_multiple_bugs=False,
+            suppress_health_check=list(HealthCheck), phases=[Phase.generate, Phase.shrink],
+            verbosity=hypothesis.Verbosity.quiet, print_blob=False,
+        )
+        @given(strat)
+        def test(desc):
+            state.run_case(desc)
 
-    try:
-        test()
-    except Violation:
-        pass  # state.failing holds the last (= minimal) failing case
-    except hypothesis.errors.FlakyFailure as exc:  # type: ignore[attr-defined]
-        state.harness_error = 'Flaky: ' + ''.join(traceback.format_exception(type(exc), exc, exc.__traceback__))[-3000:]
-    except hypothesis.errors.Flaky as exc:
-        state.harness_error = 'Flaky: ' + ''.join(traceback.format_exception(type(exc), exc, exc.__traceback__))[-3000:]
+        try:
+            test()
+        except Violation:
+            return  # state.failing holds the last (= minimal) failing case
+        except hypothesis.errors.FlakyFailure as exc:  # type: ignore[attr-defined]
+            state.harness_error = 'Flaky: ' + ''.join(traceback.format_exception(type(exc), exc, exc.__traceback__))[-3000:]
+            return
+        except hypothesis.errors.Flaky as exc:
+            state.harness_error = 'Flaky: ' + ''.join(traceback.format_exception(type(exc), exc, exc.__traceback__))[-3000:]
+            return
+        done += this
+        part += 1
 
 
 def execute_replay(module, replay: dict) -> Optional[dict]:
